@@ -264,7 +264,12 @@ def equal(got, want, case):
         if got.tzinfo is None:
             return got == want and not local
         return bool(local) and got.replace(tzinfo=None) == want
-    return got.tzinfo is not None and got == want
+    if got.tzinfo is None or got.astimezone(timezone.utc) != want.astimezone(timezone.utc):
+        return False
+    # a pytz value must be a valid local time (normalised): its wall clock and offset are what a reader sees
+    if hasattr(got.tzinfo, "normalize") and got.tzinfo.normalize(got).utcoffset() != got.utcoffset():
+        return False
+    return True
 
 
 def info(case):
